@@ -139,4 +139,5 @@ class MetaRunner(object):
             await runner.aclose()
         # wait until runners are closed
         await asyncio.gather(*runner_tasks, return_exceptions=True)
-        self._runners.clear()
+        # the closed runners stay registered until ``running`` is cleared:
+        # registering a payload while shutting down must not look like an unknown flavour
